@@ -780,6 +780,7 @@ pub fn run(run: &mut Run) -> Result<(), String> {
                     plan.raws.push((Box::new(EpCheck { second: vec![Kind::Q], files: (0..8).collect() }), b(0, 0)));
                     plan.raws.push((Box::new(Caged { inner: Box::new(CheckPin { kings: vec![15, 55] }), variants: 3, mover: true }), b(0, 0)));
                     plan.raws.push((Box::new(Caged { inner: Box::new(AddCastle { inner: Box::new(DoubleCheck { kings: vec![5, 59], own_kinds: vec![] }) }), variants: 3, mover: true }), b(0, 0)));
+                    plan.raws.push((Box::new(Caged { inner: Box::new(PinUniverse { kings: vec![15, 55, 0, 63, 27], far_side: false }), variants: 3, mover: true }), b(0, 0)));
                 }
             } else {
                 if prop == "C07" {
